@@ -186,6 +186,10 @@ def gen_image_case(rng, thorough=False):
         maxval = rng.choice([1, 2, 3, 7, 40])
     inp = dict(stream="image", shape=shape, dtype=dtype, sep=sep, sep_scalar=scalar, pct=pct,
                margin=margin, precise=rng.random() < 0.5, kind=kind)
+    if rng.random() < 0.01 and not dtype.startswith("float"):
+        inp["sep"] = sep + [sep[0]] if rng.random() < 0.5 else sep[:-1]
+        inp["sep_scalar"] = False
+        inp["margin"] = None
     if dtype.startswith("float"):
         # Q integers, max exactly 255*2^j, possibly some negative; image = Q * 2^-(k+j)
         j = rng.randint(0, 3)
@@ -234,6 +238,9 @@ def gen_wc_case(rng):
     else:
         L = rng.randint(1, 4)
         inten = [rng.randint(1, L) * rng.choice([1, 1, 50]) for _ in range(n)]
+    if rng.random() < 0.02:
+        sep = list(sep)
+        sep[rng.randrange(nd)] = "0"
     return dict(stream="wc", ndim=nd, pos8=pos, sep=sep, inten=inten,
                 frame=rng.choice(["array", "array", "dataframe"]))
 
@@ -250,9 +257,9 @@ def gen_cases(ctx):
             for start in range(0, total, B):
                 yield dict(stream="exh", family=name, shape=shape, levels=L, start=start,
                            count=min(B, total - start))
-    for i in range(ctx.n(1500, 30000)):
+    for i in range(ctx.n(4000, 100000)):
         yield gen_image_case(ctx.rng("image", i), ctx.thorough)
-    for i in range(ctx.n(600, 10000)):
+    for i in range(ctx.n(1500, 30000)):
         yield gen_wc_case(ctx.rng("wc", i))
 
 
@@ -561,6 +568,25 @@ def run_image_case(ctx, inp):
     image = build_image(inp)
     nd = image.ndim
     seps = [Fraction(s) for s in inp["sep"]]
+    if len(seps) != nd:
+        # malformed: one separation per axis is required (validate_tuple raises ValueError);
+        # the model answers `reject`
+        from trackpy.find import grey_dilation
+        res.stat("malformed_separation_length")
+        try:
+            out = grey_dilation(image, tuple(float(s) for s in seps), float(Fraction(inp["pct"])))
+            raised = None
+        except ValueError as e:
+            raised = e
+        m = ctx.ask("GD %s | %s | %s | d | 0 | %s" % (
+            ",".join(map(str, image.shape)), ",".join(rs(s) for s in seps), rs(Fraction(inp["pct"])),
+            ",".join(str(int(v)) for v in np.asarray(image).ravel().astype(np.int64))))
+        if raised is None or m != "reject":
+            res.violation("correspondence-break", "separation with %d entries for a %d-D image: code "
+                          "%s, model %s" % (len(seps), nd, "raised" if raised else "returned", m),
+                          impl=repr(raised), model=m, broken="Find.wellFormed",
+                          signature=dict(stream="image", clause="malformed"))
+        return res
     if inp.get("sep_scalar"):
         s = seps[0]
         sep_arg = int(s) if s.denominator == 1 and (len(inp["pixels"]) % 2 == 0) else float(s)
@@ -622,6 +648,18 @@ def run_wc_case(ctx, inp):
     res.stat("wc_ndim_%d" % nd)
     res.stat("wc_intensity_none" if inten is None else "wc_intensity_given")
     seps8 = [s * 8 for s in seps]
+    if any(s == 0 for s in seps):
+        # find.py:23 - a zero separation switches the filter off; the model does the same
+        res.stat("wc_zero_separation")
+        feats = ";".join("%s:%d:0" % (",".join(str(c) for c in p), 0 if inten is None else inten[i])
+                         for i, p in enumerate(pos8))
+        m = common.kv(ctx.ask("WC %s | %s" % (",".join(rs(s) for s in seps8), feats)))
+        if d_impl != [] or m.get("drop") not in (True, ""):
+            res.violation("correspondence-break", "zero separation: code drops %s, model %r"
+                          % (d_impl, m.get("drop")), impl=d_impl, model=str(m),
+                          broken="Find.whereClose (zero separation)",
+                          signature=dict(stream="wc", clause="zero-separation"))
+        return res
     gap, fkeys = gap_and_keys([tuple(p) for p in pos8], inten, seps8, fpos=pos,
                               fsep=tuple(float(s) for s in seps))
     if gap:
